@@ -185,4 +185,8 @@ ClausesCharacterise == Converted =>
 EmitCase == (pass = 1 /\ pc = "header") =>
                PrintT(<<"CASE", case.nfeat, case.ppos, case.dd, case.nl, case.prots>>)
 GenOnly == pass = 1 /\ pc = "header"
+\* ---- liveness (checked by PinTsv_live.cfg): under weak fairness of the next-state action every behaviour comes to rest
+\* in a state without successor -- the modelled procedure terminates for every input, schedule and fault inside the bounds
+FairSpec == Spec /\ WF_vars(Next)
+Halts == <>[](~ENABLED Next)
 =============================================================================
